@@ -56,6 +56,10 @@ def apply_mut(m, bs):
     if k == "flip":
         bs[m["a"]] ^= (1 << m["b"])
         return bs
+    if k == "flip0":
+        bs[10:12] = [0, 0]
+        bs[m["a"]] ^= (1 << m["b"])
+        return bs
     if k == "revcookie":
         bs[0:8] = bs[0:8][::-1]
         return bs
